@@ -148,6 +148,44 @@ def starved_case():
             "ops": [["add_ball"], ["add_ball"], ["wait", 64], ["lock", False]]}
 
 
+WP = {"topo": "std", "slots": 3, "balls": 2, "tries_trough": 3, "tries_plunger": 3, "tries_lock": 3, "eject_to": 2000,
+      "missing_to": 4000, "idle_to": 2000}
+G = bw.GRID
+
+# Directed minimal witnesses of histories that the random generator deliberately does not produce (see ASSUMPTIONS):
+# physically possible, but ambiguous for any timeout/switch based bookkeeping.  They run first on every check; each has
+# its own signature (classified from the simulator's record of the event, see ballworld.classify_fired_full).
+WITNESSES = [
+    # the plunger's ball falls back 2.5 s after leaving; eject_timeout is 2 s: MPF has confirmed the eject by timeout and
+    # fires the next ball at the plunger while the first one is still rolling back
+    ("fired-into-full-device:fallback-after-eject-timeout",
+     {"p": WP, "timing": {"leave": G, "transit": 4 * G, "fallback": 40 * G, "late": 8 * G, "pf_switch": False},
+      "outcomes": {"plunger": ["fallback"]}, "ops": [["add_ball"], ["add_ball"], ["rest"]]}),
+    # the trough's ball needs longer than eject_timeout + ball_missing_timeout: MPF declares it lost (assumes it is on the
+    # playfield), serves the next request, and the first ball arrives after all
+    ("fired-into-full-device:arrival-after-ball-missing-timeout",
+     {"p": WP, "timing": {"leave": G, "transit": 4 * G, "fallback": 6 * G, "late": 8 * G, "pf_switch": False},
+      "outcomes": {"trough": ["verylate"]}, "ops": [["add_ball"], ["add_ball"], ["rest"]]}),
+    # a ball drains into the trough at the instant the trough ejects; the ejected ball is late: at eject_timeout MPF takes
+    # the drained ball for the ejected ball having come back, retries, and the first ball arrives as well
+    ("misattributed:entry-during-own-eject",
+     {"p": WP, "timing": {"leave": G, "transit": 4 * G, "fallback": 6 * G, "late": 2 * G, "pf_switch": False, "ambiguous": True},
+      "outcomes": {"trough": ["ok", "late"]}, "ops": [["add_ball"], ["rest"], ["add_ball"], ["drain"], ["rest"]]}),
+    # the plunger's ball falls back; meanwhile the lock's released ball reaches the playfield and hits a playfield switch:
+    # MPF credits that hit to the plunger's eject (first incoming ball of the playfield) and fires the next ball at the plunger
+    ("misattributed:playfield-hit-after-return",
+     {"p": dict(WP, balls=3), "timing": {"leave": G, "transit": 4 * G, "fallback": 24 * G, "late": 8 * G, "pf_switch": True,
+                                         "ambiguous": True},
+      "outcomes": {"plunger": ["ok", "fallback"]},
+      "ops": [["add_ball"], ["rest"], ["lock", True], ["rest"], ["add_ball"], ["add_ball"], ["wait", 16], ["release_lock"], ["rest"]]}),
+    # BallDevice.balls is -1 between end_eject() and the state leaving ball_left (see module docstring)
+    ("count-negative:balls-property-after-eject-success",
+     {"p": WP, "timing": {"leave": G, "transit": 4 * G, "fallback": 6 * G, "late": 8 * G, "pf_switch": True},
+      "outcomes": {}, "ops": [["add_ball"], ["rest"]], "report_transient": True}),
+]
+WITNESS_SIGS = tuple(w[0] for w in WITNESSES)
+
+
 def shrink(case, sig):
     def fails(ops):
         res = bw.run_case(dict(case, ops=ops), None)
@@ -156,6 +194,9 @@ def shrink(case, sig):
         return dict(case, ops=ddmin(case["ops"], fails, max_tests=60))
     except Exception:
         return case
+
+
+LISTED = (KNOWN_SIG, STARVED_SIG) + WITNESS_SIGS      # classes with a directed witness: never shrunk, never stop the run
 
 
 def eval_case(ctx, case, model, focus):
@@ -175,8 +216,8 @@ def eval_case(ctx, case, model, focus):
             ctx.count("other_property_failure")
             continue
         c2 = case
-        unknown = [f for f in ctx.failures if f["signature"] not in (KNOWN_SIG, STARVED_SIG)]
-        if sig not in (KNOWN_SIG, STARVED_SIG) and not unknown:
+        unknown = [f for f in ctx.failures if f["signature"] not in LISTED]
+        if sig not in LISTED and not unknown:
             c2 = shrink(case, sig)          # only the first failure of a run is shrunk (it becomes the replay)
         ctx.fail(sig, c2, detail)
     return res
@@ -187,11 +228,14 @@ def run(ctx, focus="C04", ident=ID):
     try:
         if focus == "C04":
             eval_case(ctx, d16_case(ctx.rng("d16")), model, focus)
+            for sig, wcase in WITNESSES:
+                res = eval_case(ctx, wcase, model, focus)
+                ctx.notes.setdefault("witnesses", {})[sig] = [f[0] for f in res.failures]
         else:
             eval_case(ctx, starved_case(), model, focus)
         for i in range(ctx.n(600, 6000)):
             eval_case(ctx, gen_case(ctx.rng("case", i), i, heavy=(focus == "C05")), model, focus)
-            if len([f for f in ctx.failures if f["signature"] not in (KNOWN_SIG, STARVED_SIG)]) >= 3:
+            if len([f for f in ctx.failures if f["signature"] not in LISTED]) >= 3:
                 break                       # a violation is established; the first (shrunk) one is reported
     finally:
         if model is not None:
